@@ -480,6 +480,81 @@ theorem C25_witness_ed :
     edDecodeByte .macRoman 0xB1 = 0xB1 ∧ edDecodeByte .pdfDoc 0x80 = 0x2022 := by
   decide +kernel
 
+/-! ## `text/extraction_cmap.rs` — the second set of decoders (fonts without ToUnicode) -/
+
+/-- Consistency: the WinAnsi decoder of text extraction (`extraction_cmap::decode_winansi`) and
+`winansi_decode_char` / the table inside `TextEncoding::decode` agree — on all 256 bytes with the
+former, on every byte Annex D defines with the latter (which answers `?` on the five unused codes). -/
+theorem C25_extraction_winansi_agrees (b : Nat) (hb : b < 256) :
+    xcDecode .winAnsi b = winansiDecodeChar b ∧
+    ((AnnexD.dec .winAnsi b).isSome = true → xcDecode .winAnsi b = decodeByte .winAnsi b) := by
+  have key : tblAll (fun b v => xcDecode .winAnsi b == winansiDecodeChar b &&
+      (!v.isSome || xcDecode .winAnsi b == decodeByte .winAnsi b)) AnnexD.winAnsiTbl = true := by decide +kernel
+  have := tblAll_lt (e := .winAnsi) key b hb
+  simp only [Bool.and_eq_true, beq_iff_eq, Bool.or_eq_true, Bool.not_eq_true'] at this
+  refine ⟨this.1, fun h => ?_⟩
+  rcases this.2 with h1 | h1
+  · rw [h] at h1; simp at h1
+  · exact h1
+
+example : xcDecode .winAnsi 0x93 = some 0x201C ∧ winansiDecodeChar 0x93 = some 0x201C ∧
+    decodeByte .winAnsi 0x93 = some 0x201C := by decide +kernel
+
+/-- Hence text extraction decodes WinAnsi exactly as Annex D says, on every defined slot. -/
+theorem C25_extraction_winansi_matches_annexD (b u : Nat) (h : AnnexD.dec .winAnsi b = some u) :
+    xcDecode .winAnsi b = some u := by
+  rw [(C25_extraction_winansi_agrees b (dec_lt h)).1]
+  exact (C25_winansi_decode_matches_annexD b u h).1
+
+example : xcDecode .winAnsi 0x80 = some 0x20AC := by decide +kernel
+
+/- FULL (false of the code): `∀ b u, AnnexD.dec .macRoman b = some u → xcDecode .macRoman b = some u`, and
+   the same for `.standard`. -/
+/-- `extraction_cmap::decode_macroman` is right below 0xA0 only ("… more mappings"): from 0xA0 up it
+answers the Latin-1 character of the byte. -/
+theorem C25_extraction_macroman_partial (b u : Nat) (hb : b < 0xA0) (h : AnnexD.dec .macRoman b = some u) :
+    xcDecode .macRoman b = some u := by
+  have key : tblAll (fun b v => Nat.ble 0xA0 b || v.all fun u => xcDecode .macRoman b == some u)
+      AnnexD.macRomanTbl = true := by decide +kernel
+  have := tblAll_dec (e := .macRoman) key h
+  simp only [Bool.or_eq_true, Nat.ble_eq] at this
+  rcases this with h1 | h1
+  · omega
+  · simpa using h1
+
+example : xcDecode .macRoman 0x8E = some 0xE9 := by decide +kernel
+
+/-- `extraction_cmap::decode_standard` is Latin-1: right on ASCII except the two quote slots. -/
+theorem C25_extraction_standard_partial (b u : Nat) (hb : b < 0x80) (h27 : b ≠ 0x27) (h60 : b ≠ 0x60)
+    (h : AnnexD.dec .standard b = some u) : xcDecode .standard b = some u := by
+  have key : tblAll (fun b v => Nat.ble 0x80 b || b == 0x27 || b == 0x60 || v.all fun u =>
+      xcDecode .standard b == some u) AnnexD.standardTbl = true := by decide +kernel
+  have := tblAll_dec (e := .standard) key h
+  simp only [Bool.or_eq_true, Nat.ble_eq, beq_iff_eq] at this
+  rcases this with ((h1 | h1) | h1) | h1
+  · omega
+  · exact absurd h1 h27
+  · exact absurd h1 h60
+  · simpa using h1
+
+example : xcDecode .standard 0x41 = some 0x41 := by decide +kernel
+
+/-- Witnesses: a MacRoman font without ToUnicode shows `’` (0xD5) as `Õ`, `–` (0xD0) as `Ð` (76 of the 81
+Annex D slots from 0xA0 up come out wrong; ¢ £ © ± µ sit at their Latin-1 places).  A StandardEncoding
+font shows `fi` (0xAE) as `®`, `—` (0xD0) as `Ð` (47 slots wrong). -/
+theorem C25_witness_extraction_tables :
+    AnnexD.dec .macRoman 0xD5 = some 0x2019 ∧ xcDecode .macRoman 0xD5 = some 0xD5 ∧
+    AnnexD.dec .macRoman 0xD0 = some 0x2013 ∧ xcDecode .macRoman 0xD0 = some 0xD0 ∧
+    AnnexD.dec .standard 0xAE = some 0xFB01 ∧ xcDecode .standard 0xAE = some 0xAE ∧
+    AnnexD.dec .standard 0xD0 = some 0x2014 ∧ xcDecode .standard 0xD0 = some 0xD0 := by
+  decide +kernel
+
+/-- How many Annex D slots each of the two decoders gets wrong. -/
+theorem C25_witness_extraction_tables_extent :
+    tblCountAux (fun b v => v.any fun u => xcDecode .macRoman b != some u) AnnexD.macRomanTbl 0 = 76 ∧
+    tblCountAux (fun b v => v.any fun u => xcDecode .standard b != some u) AnnexD.standardTbl 0 = 47 := by
+  decide +kernel
+
 /-! ## the specification's two presentations -/
 
 /-- `AnnexD.enc` (used by the run-time oracle) returns a slot that holds the code point … -/
